@@ -13,14 +13,12 @@ def specPrims : Spec.Sec.SPrims :=
 
 abbrev H2bTable := List ((Bytes × Bytes × Bytes) × Bytes)
 
-/-- the primitives the model is run with: Lean reference implementations of MD5 / SHA-256 / AES;
-Algorithm 2.B results shipped by the harness (`ext` table), computed by the Lean spec when absent. -/
-def prims (tbl : H2bTable) : Prims :=
-  { md5 := Spec.md5, sha256 := Spec.sha256, aesEnc := Spec.aesEncBlock, aesDec := Spec.aesDecBlock,
-    hash2b := fun pw salt u =>
-      match tbl.find? (fun e => e.1 == (pw, salt, u)) with
-      | some e => e.2
-      | none => Spec.Sec.alg2B specPrims pw salt u }
+/-- the primitives the model is run with: Lean reference implementations of MD5 / SHA-2 / AES
+(Spec/Hash.lean, Spec/Aes.lean); Algorithm 2.B is part of the model itself.  (The `ext` table of
+Algorithm-2.B results that requests still carry is ignored.) -/
+def prims (_tbl : H2bTable) : Prims :=
+  { md5 := Spec.md5, sha256 := Spec.sha256, sha384 := Spec.sha384, sha512 := Spec.sha512,
+    aesEnc := Spec.aesEncBlock, aesDec := Spec.aesDecBlock }
 
 def cfOfTok : String → Option CF
   | "I" => some .identity | "R" => some .rc4 | "A" => some .aes128 | "B" => some .aes256 | _ => none
